@@ -93,7 +93,7 @@ Proof. vm_compute. repeat split; reflexivity. Qed.
    expiry, block time).  For EVERY data, state, flag and oracles it equals the hand model: Contracts.ral_parse (C04's layout model)
    + set selection + governance index test + size and quorum tests with the NODE's threshold + the signature loop. *)
 From Coq Require Strings.Byte.
-From WH Require lib.Ralph model.Vaa model.Contracts model.RalVerifyModel proofs.RalVerifyProofs.
+From WH Require lib.Bytes lib.Ralph model.Vaa model.Contracts model.RalVerifyModel proofs.RalVerifyProofs proofs.RalVerifyNodeProofs.
 
 Theorem C07_ral_source_is_the_hand_model : forall keccak ecrecover s gov data,
   RalVerifyModel.ral_source keccak ecrecover s gov data =
@@ -123,6 +123,23 @@ Theorem C07_ral_source_decision_is_parse_and_verify : forall keccak ecrecover s 
     (RalVerifyModel.recs_ok ecrecover (keccak (keccak (Contracts.rv_hashed r))) g (-1) (Contracts.rv_sig_records r)).
 Proof. exact RalVerifyProofs.ral_source_decision. Qed.
 
+(* THE sentence of the statement for the one translated function, against the node's own acceptance (Vaa.verify_sigs = the model of
+   VAA.VerifySignatures, compared with the Go code by C06's harness; go_quorum generated from quorum.go): on the bytes Marshal produces
+   for a well-formed VAA, with the named guardian set (20-byte keys, no key twice) stored as the contract stores it and usable for this
+   kind of VAA, governance.ral parseAndVerifyVAA returns the node's field values EXACTLY when the node considers the VAA complete, and
+   aborts otherwise.  vm_is_node relates the two recovery oracles: on r ++ s ++ (v + 27) the VM recovers what go-ethereum recovers on
+   r ++ s ++ v (and where v + 27 does not fit a byte go-ethereum refuses v). *)
+Theorem C07_ral_contract_accepts_iff_node_complete : forall keccak recover ecrecover,
+  (forall h sg, length sg = 65%nat ->
+     (if Bytes.unbe (skipn 64 sg) + 27 <? 256 then ecrecover h (firstn 64 sg ++ Bytes.be 1 (Bytes.unbe (skipn 64 sg) + 27))%list else None) = recover h sg) ->
+  forall s gov v K, Vaa.wf v -> RalVerifyNodeProofs.keys20 K -> NoDup K -> (1 <= length K <= 255)%nat ->
+  RalVerifyModel.guardians_for s (Vaa.gsidx v) = Some (RalVerifyModel.stored_set K) -> (gov = true -> Vaa.gsidx v = RalVerifyModel.gs_cur_idx s) ->
+  RalVerifyModel.ral_source keccak ecrecover s gov (Vaa.marshal v) =
+  if Vaa.verify_sigs recover keccak v K && (go_quorum (Z.of_nat (length K)) <=? Z.of_nat (length (Vaa.sigs v)))
+  then Some (Ralph.RZ (Vaa.echain v) :: Ralph.RZ (Vaa.tchain v) :: Ralph.RB (Vaa.eaddr v) :: Ralph.RZ (Vaa.seq v) :: Ralph.RB (Vaa.payload v) :: nil)%list
+  else None.
+Proof. exact RalVerifyNodeProofs.contract_accepts_iff_node_complete. Qed.
+
 Module X11Example.
 Import List ListNotations Coq.Strings.Byte Ralph Vaa RalVerifyModel.
 (* toy oracles: the "address" of a signature is its first 20 bytes *)
@@ -151,6 +168,31 @@ Example C07_ral_source_example :
   ral_source toy_keccak toy_recover {| gs_cur_idx := 3; gs_cur := gs_cur st; gs_prev_idx := 2; gs_prev := gs_prev st; gs_now := 40; gs_prev_exp := 40 |}
     true (marshal (v 2 [sg 0 x11])) = None.
 Proof. vm_compute. repeat apply conj; reflexivity. Qed.
+(* the premises of C07_ral_contract_accepts_iff_node_complete hold of a concrete VAA, set and pair of oracles (conclusion: accepted) *)
+Definition K4 : list (list byte) := [repeat x11 20; repeat x22 20; repeat x33 20; repeat x44 20].
+Definition toy_node_recover (h sg : list byte) : option (list byte) := if Bytes.unbe (skipn 64 sg) + 27 <? 256 then Some (firstn 20 sg) else None.
+Definition toy_vm_recover (h sg : list byte) : option (list byte) := Some (firstn 20 sg).
+Definition v3 : vaa := v 3 [sg 0 x11; sg 2 x33; sg 3 x44].
+Example C07_ral_contract_accepts_iff_node_complete_ex :
+  (forall h sg, length sg = 65%nat ->
+     (if Bytes.unbe (skipn 64 sg) + 27 <? 256 then toy_vm_recover h (firstn 64 sg ++ Bytes.be 1 (Bytes.unbe (skipn 64 sg) + 27)) else None) = toy_node_recover h sg) /\
+  wf v3 /\ RalVerifyNodeProofs.keys20 K4 /\ NoDup K4 /\ (1 <= length K4 <= 255)%nat /\
+  guardians_for st (gsidx v3) = Some (stored_set K4) /\ gsidx v3 = gs_cur_idx st /\
+  verify_sigs toy_node_recover toy_keccak v3 K4 = true /\ go_quorum 4 <= 3 /\
+  ral_source toy_keccak toy_vm_recover st true (marshal v3) = Some [RZ 5; RZ 0; RB (repeat xab 32); RZ 42; RB [x07]].
+Proof.
+  split.
+  { intros h s L. unfold toy_vm_recover, toy_node_recover. destruct (Bytes.unbe (skipn 64 s) + 27 <? 256); [|reflexivity].
+    f_equal. rewrite firstn_app, firstn_firstn, firstn_length, L. change (Init.Nat.min 20 64) with 20%nat.
+    change (20 - Init.Nat.min 64 65)%nat with 0%nat. cbn [firstn]. apply app_nil_r. }
+  split.
+  { constructor; try reflexivity; unfold rng; cbn; try lia; try discriminate.
+    repeat constructor; unfold rng; cbn; lia. }
+  split; [repeat constructor|].
+  split; [repeat constructor; cbn; intuition discriminate|].
+  split; [cbn; lia|].
+  vm_compute. repeat apply conj; try reflexivity. discriminate.
+Qed.
 End X11Example.
 
 (* ---- X12: Messages.sol parseVM / verifySignatures / verifyVM / parseAndVerifyVM translated IN FULL (gen/x_solverify.py ->
@@ -265,3 +307,4 @@ Print Assumptions C07_sol_source_verifySignatures_accepts_iff.
 Print Assumptions C07_sol_source_verifySignatures_outcomes.
 Print Assumptions C07_sol_source_accepts_iff.
 Print Assumptions C07_sol_source_parseAndVerifyVM_composes.
+Print Assumptions C07_ral_contract_accepts_iff_node_complete.
